@@ -236,7 +236,8 @@ def check_resolution(ctx, w):
 MUTANTS = [
     ('vernaux-order', 'elf/structs.py', "self.Elf_half('vna_flags'),\n            self.Elf_half('vna_other'),", "self.Elf_half('vna_other'),\n            self.Elf_half('vna_flags'),", 'L-CONF'),
     ('verdef-cnt-word', 'elf/structs.py', "self.Elf_half('vd_cnt'),", "self.Elf_word('vd_cnt'),", 'L-CONF'),
-    ('advance-sizeof', GV, "            yield version, version_auxiliaries_iter\n\n            entry_offset += entry[next_field]", "            yield version, version_auxiliaries_iter\n\n            entry_offset += self.version_struct.sizeof()", 'I-REL'),
+    ('advance-sizeof', GV, "            if entry[next_field] == 0:\n                break\n            entry_offset += entry[next_field]\n\n\nclass GNUVerNeedSection",
+     "            if entry[next_field] == 0:\n                break\n            entry_offset += self.version_struct.sizeof()\n\n\nclass GNUVerNeedSection", 'I-REL'),
     ('aux-section-relative', GV, "aux_entries_offset = entry_offset + entry[aux_field]", "aux_entries_offset = self['sh_offset'] + entry[aux_field]", 'I-REL'),
     ('aux-inverted', GV, "middle = 'a_' if auxiliary else '_'", "middle = '_' if auxiliary else 'a_'", 'E-iv'),
     ('ndx-ne', GV, "if verdef['vd_ndx'] == index:", "if verdef['vd_ndx'] != index:", 'W-VER'),
